@@ -70,6 +70,15 @@ CHECKS = {
          "Held on the executions observed: py/ts/js projects, runs of length W-1..W+4 and multiplicity 2-5 across files and twice in one file, different indentation, interleaved blank/comment/trailing-comment lines, suppressed occurrences, min_duplicate_lines 2-6, min_occurrences 2-4, both storage modes, '.', explicit file lists and mixed file+directory arguments; evidence counts occurrences, violations and counts checked.",
          "Trusted: uniqueness of filler statements by construction; the harness normaliser (no comment markers inside strings in the strict workload; that case is a separate probe); 'covered' = intersected.",
          "DESIGN.md section 4 C03"),
+
+ "C04": ("runtime monitoring: base run vs variant run (one suppression directive inserted) of every linter command and of an unrelated witness command, for every cell of the matrix linter x language x directive form x rule-name spelling x placement; a scope model written from the property text predicts the variant",
+         "Held on the executions observed: 19 commands (lazy-ignores excluded as a subject), py/ts/rs files, same-line / next-line / block / file-level (lines 1,5,10 in scope, 11,40 out of scope) / .thailintignore / config ignore / per-linter ignore, spellings full id / prefix / prefix.* / alias / upper case / list / bare, negative controls (other rule, placed away); thorough tier enumerates the whole matrix; evidence counts cells ok/fail.",
+         "Trusted: the scope model and the rule-name matcher (vlib/props/c04.py); line numbers inside messages are masked; per-linter ignore is judged only for linters whose documentation lists the option; file-header/file-placement only with forms that do not alter their subject.",
+         "DESIGN.md section 4 C04"),
+ "C05": ("runtime monitoring: boundary trace of linter commands on a staircase probe project (constructs straddling every threshold value) under the same setting written through .thailint.yaml / .thailint.json / pyproject.toml / --config (command and group level) with hyphen or underscore section names; relational oracles (carrier equivalence, enabled:false silence, effect + monotonicity along sweeps, precedence decoding, top-level ignore, exit 2 for invalid values and unparsable files)",
+         "Held on the executions observed: 20 commands x enabled:false x carriers; 23 threshold/switch sweeps; precedence yaml>json>pyproject and CLI options vs file values and per-language overrides; top-level ignore in every carrier; ten invalid values and eight unparsable-file variants; evidence counts each case class.",
+         "Trusted: the staircase project (vlib/gen/staircase.py) has constructs on both sides of each swept value; 'invalid' = rejected by the linter's own validation through .thailint.yaml (plus the documented non-positive limits).",
+         "DESIGN.md section 4 C05"),
 }
 PENDING = {}
 props = [json.loads(l) for l in open(os.path.join(HERE, "properties.jsonl"))]
